@@ -10,7 +10,7 @@
 
    The judgement is that of PlotWrap.tla: InTrack and Unwrap for every sample, every point in the track, in the step's x
    interval and in the plot's x range, a bounded number of points per step, no plain point for an off-scale wrap,
-   nothing drawn for or across absent samples.  A rejected trace deadlocks at (tid, l). *)
+   nothing at all while the curve stays off scale on one side, nothing drawn for or across absent samples.  A rejected trace deadlocks at (tid, l). *)
 EXTENDS Integers, Sequences, FiniteSets, TLC, Json, IOUtils
 
 CONSTANTS Tol,          \* quantisation tolerance (position units)
@@ -18,20 +18,20 @@ CONSTANTS Tol,          \* quantisation tolerance (position units)
 
 Data == JsonDeserialize(IOEnv.TRACE_FILE)
 Traces == Data.traces
-VARIABLES tid, l, g, havePrev, xPrev, gap
-tvars == <<tid, l, g, havePrev, xPrev, gap>>
+VARIABLES tid, l, g, havePrev, xPrev, gap, wPrev
+tvars == <<tid, l, g, havePrev, xPrev, gap, wPrev>>
 Ev == Traces[tid][l]
 More == l <= Len(Traces[tid])
 Abs(n) == IF n < 0 THEN -n ELSE n
 Min2(a, b) == IF a < b THEN a ELSE b
 Max2(a, b) == IF a < b THEN b ELSE a
 
-TInit == tid \in 1..Len(Traces) /\ l = 1 /\ g = [new |-> TRUE] /\ havePrev = FALSE /\ xPrev = 0 /\ gap = FALSE
+TInit == tid \in 1..Len(Traces) /\ l = 1 /\ g = [new |-> TRUE] /\ havePrev = FALSE /\ xPrev = 0 /\ gap = FALSE /\ wPrev = 0
 
 Start == /\ More /\ Ev.op = "start" /\ "new" \in DOMAIN g
          /\ Ev.LP < Ev.RP /\ Ev.xlo <= Ev.xhi
          /\ g' = [LP |-> Ev.LP, RP |-> Ev.RP, bu |-> Ev.bu, xlo |-> Ev.xlo, xhi |-> Ev.xhi]
-         /\ UNCHANGED <<havePrev, xPrev, gap>>
+         /\ UNCHANGED <<havePrev, xPrev, gap, wPrev>>
 
 OffScale(w) == IF w < 0 /\ g.bu[1] # 0 /\ w < g.bu[1] THEN -1
                ELSE IF w > 0 /\ g.bu[2] # 0 /\ w > g.bu[2] THEN 1 ELSE 0
@@ -40,7 +40,7 @@ Wq == g.RP - g.LP
 
 AbsentEv == /\ More /\ Ev.op = "absent" /\ "LP" \in DOMAIN g
             /\ gap' = TRUE
-            /\ UNCHANGED <<g, havePrev, xPrev>>
+            /\ UNCHANGED <<g, havePrev, xPrev, wPrev>>
 
 PtOK(pt, xNow) == /\ InTrack(pt.pos)
                   /\ g.xlo - 1 <= pt.x /\ pt.x <= g.xhi + 1
@@ -49,7 +49,7 @@ PtOK(pt, xNow) == /\ InTrack(pt.pos)
 
 SampleEv == /\ More /\ Ev.op = "sample" /\ "LP" \in DOMAIN g
             /\ IF Ev.err
-               THEN Ev.pts = <<>> /\ UNCHANGED havePrev
+               THEN Ev.pts = <<>> /\ UNCHANGED <<havePrev, wPrev>>
                ELSE /\ InTrack(Ev.pos)
                     /\ ~Ev.big => Abs((Ev.pos + Ev.w * Wq) - (g.LP + Ev.pfloor * Wq + (Ev.frac * Wq) \div 10000)) <= Tol
                     /\ \A k \in 1..Len(Ev.pts) : PtOK(Ev.pts[k], Ev.x)
@@ -60,11 +60,14 @@ SampleEv == /\ More /\ Ev.op = "sample" /\ "LP" \in DOMAIN g
                        ELSE \A k \in 1..Len(Ev.pts) : Abs(Ev.pts[k].x - Ev.x) > 1
                     \* nothing is drawn across absent samples
                     /\ gap => Len(Ev.pts) <= 1
+                    \* a curve that stays off scale on one side draws nothing (no edge, crossing or incoming lines)
+                    /\ (havePrev /\ OffScale(wPrev) # 0 /\ OffScale(wPrev) = OffScale(Ev.w)) => Ev.pts = <<>>
+                    /\ wPrev' = Ev.w
                     /\ havePrev' = TRUE
             /\ xPrev' = Ev.x /\ gap' = FALSE
             /\ UNCHANGED g
 
-EndEv == /\ More /\ Ev.op = "end" /\ UNCHANGED <<g, havePrev, xPrev, gap>>
+EndEv == /\ More /\ Ev.op = "end" /\ UNCHANGED <<g, havePrev, xPrev, gap, wPrev>>
 
 Done == ~More
 TNext == \/ (Start \/ AbsentEv \/ SampleEv \/ EndEv) /\ l' = l + 1 /\ UNCHANGED tid
